@@ -525,6 +525,26 @@ pub fn family_minor_stalemates(out: &mut Vec<Desc>) {
     }
 }
 
+/// positions whose only legal moves are promotions (a king with no move, one pawn on its seventh rank), not in check and in
+/// check, with and without a capture-promotion; built by hand, not filtered through the library
+pub fn family_only_promotions(out: &mut Vec<Desc>) {
+    for f in 2..8usize {
+        for cap in [0usize, 1, 2] {
+            let mut d = Desc::empty();
+            d.pl[0] = b'K'; d.pl[17] = b'k'; d.pl[28] = b'b';       // Ka1, kb3, be4 (b1 covered along e4-b1)
+            d.pl[48 + f] = b'P';
+            if cap == 1 && f < 7 { d.pl[56 + f + 1] = b'r' }          // something to capture on the last rank
+            if cap == 2 { d.pl[56 + f] = b'n'; if f < 7 { d.pl[56 + f + 1] = b'r' } else { continue } } // push blocked, capture only
+            out.push(d.clone()); out.push(d.flipped()); out.push(d.mirrored()); out.push(d.flipped().mirrored());
+        }
+    }
+    // in check, the only replies are promotions that block or capture the checker
+    let mut d = Desc::from_fen("8/8/8/8/8/5K2/1p5p/R6k b - - 0 1");
+    out.push(d.clone()); out.push(d.flipped()); out.push(d.mirrored());
+    d = Desc::from_fen("8/8/8/8/8/5K2/2p4p/R6k b - - 0 1");
+    out.push(d.clone()); out.push(d.flipped());
+}
+
 /// en-passant capture made illegal by a rank attack (king, capturer, victim and an enemy rook/queen on one rank),
 /// with the king boxed in: kept when the library reports at most one legal move
 pub fn family_ep_boxed(rng: &mut Rng, n: usize, out: &mut Vec<Desc>) {
